@@ -33,9 +33,20 @@ pub fn replay(case: &Value) -> Vec<Obs> {
             else { vec![Obs::ok("C21", "rejected-illegal")] }
         }
         Ok(None) => {
-            if format_kb(&kb) == format_kb(&kb_ref) { vec![Obs::ok("C21", if legal { "loaded" } else { "loaded-illegal" })] }
+            if format_kb(&kb) == format_kb(&kb_ref) && structure(&kb) == structure(&kb_ref) { vec![Obs::ok("C21", if legal { "loaded" } else { "loaded-illegal" })] }
             else { vec![Obs::bad("C21", "different", format!("{} :: loaded as {:?} instead of {:?}", what,
                         format_kb(&kb).replace('\n', " | "), format_kb(&kb_ref).replace('\n', " | ")))] }
         }
     }
+}
+
+/// The knowledge base rule for rule (per predicate, in order), as structure: two rules that print alike
+/// but differ in what was parsed (an atom `5` for the integer 5) are different.
+fn structure(kb: &KnowledgeBase) -> std::collections::BTreeMap<String, Vec<String>> {
+    let mut m = std::collections::BTreeMap::new();
+    for (k, rules) in kb.iter() {
+        m.insert(k.clone(), rules.iter().map(|r| format!("{} :- {}", serde_json::to_string(&crate::term::tm_to_json(&crate::term::project(&r.head))).unwrap(),
+                                                         crate::syntax::project_goal(&r.body))).collect());
+    }
+    m
 }
